@@ -446,6 +446,28 @@ class ReadWalker:
                     raise self.ctx.err(st, 'dispatched item read without kmip_version=kmip_version')
                 self.add_dispatched(stmts[start], rc[0], block, rc[0], guard, 'Req', False)
                 return j + 1
+            # F4: ...; if self.is_tag_next(self.F.tag, buf): self.F.read(buf, ...) [else: raise]   (secret by object type)
+            if isinstance(st, ast.If) and j > start and isinstance(st.test, ast.Call) and _self_attr(st.test.func) == 'is_tag_next' \
+                    and len(st.test.args) == 2 and _is_name(st.test.args[1], self.buf) and isinstance(st.test.args[0], ast.Attribute) \
+                    and st.test.args[0].attr == 'tag' and _self_attr(st.test.args[0].value) and len(st.body) == 1:
+                try:
+                    rc = self.read_call(st.body[0])
+                except Untranslatable:
+                    rc = None
+                block = stmts[start:j]
+                if rc is None or not rc[1] or not _self_attr(rc[0]) or self.touches_stream(block) or not self.decoded_fields_in(block):
+                    return None
+                fa, fb = self.ctx.field_of(rc[0]), self.ctx.field_of(st.test.args[0].value)
+                if not fa or not fb or fa[0] != fb[0]:
+                    return None
+                if not st.orelse:
+                    mult = 'Opt'
+                elif len(st.orelse) == 1 and isinstance(st.orelse[0], ast.Raise):
+                    mult = 'Req'
+                else:
+                    return None
+                self.add_dispatched(stmts[start], rc[0], block, rc[0], guard, mult, False)
+                return j + 1
             if self.touches_stream([st]):
                 return None
         return None
